@@ -37,17 +37,25 @@ def check(R):
         R.expect('P5', RS, 'ReservedSession has a Drop impl', F.has_impl('core::ops::drop::Drop', RS), 'impl Drop', 'no Drop impl')
         R.expect('P5', RS, 'ReservedSession is neither Clone nor Copy', not F.has_impl('core::clone::Clone', RS) and not F.has_impl('core::marker::Copy', RS), 'ok', 'Clone/Copy')
         dc = closure_in(R, '<' + RS + ' as core::ops::drop::Drop>::drop', ['Sessions::remove'])
-        from common import path_bool_edges
+        from common import path_bool_edges, field_bool_edges, closure_arg_sites
+        # the `complete` test may sit in the state closure (older shape) or in Drop::drop itself, around the call that runs the closure
         te, fe = path_bool_edges(dc, 'complete')
-        R.expect('P2', dc.fn, 'Drop branches on `complete`', bool(te) and bool(fe), f'{sorted(te)} / {sorted(fe)}', 'no test of `complete`')
-        rm = call_bbs(dc, SESSIONS + '::remove')
-        bad = prims.always_followed_by(dc, [e[1] for e in fe], rm)
-        R.expect('P3', dc.fn, 'an uncompleted reservation always removes its session slot', bool(fe) and not bad, 'complete == false -> sessions.remove(id)', 'a path through the not-completed edge keeps the slot')
+        wb_, rm = dc, call_bbs(dc, SESSIONS + '::remove')
+        if not (te and fe):
+            dfn = R.body('<' + RS + ' as core::ops::drop::Drop>::drop')
+            te, fe = field_bool_edges(dfn, 'complete:' + RS)
+            wb_, rm = dfn, [t.bb for t in closure_arg_sites(dfn, dc.fn)]
+            R.expect('P3', dc.fn, 'the state closure of Drop removes the slot on every path', not prims.precedes(dc, call_bbs(dc, SESSIONS + '::remove'), dc.ret_blocks()), 'sessions.remove(id) unconditional', 'a path through the closure keeps the slot')
+        R.expect('P2', wb_.fn, 'Drop branches on `complete`', bool(te) and bool(fe), f'{sorted(te)} / {sorted(fe)}', 'no test of `complete`')
+        bad = prims.always_followed_by(wb_, [e[1] for e in fe], rm) if rm else ['no removal']
+        R.expect('P3', wb_.fn, 'an uncompleted reservation always removes its session slot', bool(fe) and not bad, 'complete == false -> sessions.remove(id)', 'a path through the not-completed edge keeps the slot')
         clr = [i for i, j, s in dc.field_writes('reserved:' + SESS)]
-        R.cut('P2', dc, 'turn the reservation into a usable session (reserved = false)', clr, 'complete == true', te)
+        if clr:
+            R.cut('P2', dc, 'turn the reservation into a usable session (reserved = false)', clr, 'complete == true', te)
+        R.cut('P2', wb_, 'remove the session slot', rm, 'the reservation was not completed (complete == false)', fe)
         s = prims.sources(dc, dc.calls(SESSIONS + '::remove')[0].d['a'][1])
         R.expect('P10', dc.fn, 'the slot removed is the reserved one', mentions(s, 'id'), 'sessions.remove(self.id)', f'{sorted(map(str, s))[:4]}')
-        R.writers_confined('P1', 'reserved:' + SESS, {SESS + '::new', SESS + '::init', '<' + RS + ' as core::ops::drop::Drop>::drop'}, min_sites=1)
+        R.writers_confined('P1', 'reserved:' + SESS, {SESS + '::new', SESS + '::init', '<' + RS + ' as core::ops::drop::Drop>::drop', RS + '::complete'}, min_sites=1)
         R.writers_confined('P1', 'complete:' + RS, {RS + '::complete'}, min_sites=1)
         R.constructors_confined('P1', RS, {RS + '::reserve_now'})
         holders = [b for b in F.bodies.values() if b.focus and b.locals and any(l[0].startswith(RS) for l in b.locals)]
